@@ -61,7 +61,7 @@ def step (st : St) (ws : List String) : St × String :=
     match st.conf, client.toNat?, (if bal = "-" then some none else (F64Line.u64? bal).map some), F64Line.u64? value,
           i64? now, i64? start, i64? dur, allSome (dests.map parseDest) with
     | some conf, some client, some bal, some value, some now, some start, some dur, some dests =>
-      if st.pool.isSome ∨ 8 ≤ client ∨ dests.any (fun d => 8 ≤ d.1) then (st, "bad-op")   -- one pool per case; client ids 0..7
+      if st.pool.isSome ∨ 8 ≤ client ∨ dests.any (fun d => 8 ≤ d.1) ∨ 4000000000000000000 < value then (st, "bad-op")   -- one pool per case; client ids 0..7; the engine rejects values above the supply
       else
       match add conf client bal value now start dur dests with
       | .error e => (st, "err " ++ e.tag)
